@@ -1217,7 +1217,7 @@ def collect(repo, srcs=None):
         s['key'] = encode_key(*k)
     return {'drop_facts': dfacts, 'zeroize_facts': zfacts, 'wipe_facts': wfacts, 'panic_sites': sites,
             'errors': errors, 'files': [fs.sf.relname for fs in scans], 'scanned_fns': sfns,
-            'branch': branch_inventory(scans)}
+            'branch': branch_inventory(scans), 'scans': scans}
 
 
 def lstr(s):
